@@ -521,7 +521,10 @@ pub fn run_check(check: &Check, tier: &str, seed: u64) -> i32 {
     }
     let wall = t0.elapsed().as_secs_f64();
     for k in &agg.known {
-        out_line(&format!("KNOWN-FINDING: property={} {}", check.prop, crate::known::describe(k)));
+        // a finding is announced by the check of the property it belongs to
+        if crate::known::property_of(k).as_deref() == Some(check.prop) {
+            out_line(&format!("KNOWN-FINDING: property={} {}", check.prop, crate::known::describe(k)));
+        }
     }
     let faults: BTreeMap<&str, u64> = agg
         .counters
